@@ -51,6 +51,33 @@ def calls_for(rule, text, k):
     return [(rule, text, k), (rule, text[k:], 0), (rule, other_prefix(text[:k]) + text[k:], k)]
 
 
+def add_sweeps(calls, meta):
+    """After the main triples: for every (rule, text), the calls (rule, text, k) once more on the same text
+    object with k running from len(text) down to 0 - the property quantifies over every k, whatever was parsed
+    before with the same Parser (seeded change S66). Returns [(index into calls, index into meta)]."""
+    sweeps = []
+    for i in range(len(meta) - 1, -1, -1):
+        s, text, k = meta[i]
+        sweeps.append((len(calls), i))
+        calls.append((s, text, k))
+    return sweeps
+
+
+def check_sweeps(ctx, case, mode, outs, meta, sweeps, suffix=""):
+    for ci, i in sweeps:
+        s, text, k = meta[i]
+        a, b, c = outs[ci], outs[3 * i + 1], outs[3 * i + 2]
+        ctx.evals += 1
+        cls = compare(a, b, c, k)
+        if cls in (None, "skip"):
+            continue
+        vc = fullcase.make_case(case, s, text, k, mode)
+        vc["sweep"] = True
+        ctx.violation(f"{mode}:{cls}:descending-sweep{suffix}", vc,
+                      f"start_pos={k} after the calls at len(text)..{k + 1} on the same text object: {str(a)[:250]}; "
+                      f"suffix at 0: {str(b)[:250]}")
+
+
 def eval_case(modes, case):
     mode = case["mode"]
     worker = modes.raw if mode.startswith("raw") else modes.opt
@@ -59,6 +86,10 @@ def eval_case(modes, case):
     if k > len(case["input"]):
         return None
     calls = calls_for(case["rule"], case["input"], k)
+    if case.get("sweep"):
+        # the same Parser / module and the same text object, start positions visited from len(text) down to k
+        text = case["input"]
+        calls = [(case["rule"], text, j) for j in range(len(text), k, -1)] + calls
     res = worker.call("pestverif.modes:eval_grammar",
                       {"text": gprint.grammar_text(rules), "calls": calls, "gen": mode.endswith("gen")})
     if res["load"][0] != "ok":
@@ -66,6 +97,7 @@ def eval_case(modes, case):
     outs = res["gen"] if mode.endswith("gen") else res["int"]
     if len(outs) < 3:
         return None
+    outs = outs[-3:]
     cls = compare(outs[0], outs[1], outs[2], k)
     if cls in (None, "skip"):
         return None
@@ -122,6 +154,7 @@ def run_fixed_shapes(ctx: Ctx, modes, idx):
                 meta.append(("r", text, k))
                 calls.extend(calls_for("r", text, k))
         ctx.count("fixed_shape_grammars")
+        sweeps = add_sweeps(calls, meta)
         for side, worker in (("raw", modes.raw), ("opt", modes.opt)):
             res = worker.call("pestverif.modes:eval_grammar", {"text": case["text"], "calls": calls, "gen": True})
             if res["load"][0] != "ok":
@@ -141,6 +174,7 @@ def run_fixed_shapes(ctx: Ctx, modes, idx):
                     if cls is not None:
                         ctx.violation(f"{mode}:{cls}:fixed-shape", fullcase.make_case(case, s, text, k, mode),
                                       f"start_pos={k}: {str(a)[:250]}; suffix at 0: {str(b)[:250]}; other prefix: {str(c)[:150]}")
+                check_sweeps(ctx, case, mode, outs, meta, sweeps, ":fixed-shape")
     ctx.exhaustive.update({"fixed_shape_grammars": len(shapes), "fixed_shapes": "every text up to the length bound x every k"})
 
 
@@ -170,6 +204,7 @@ def run_shard(ctx: Ctx, spec):
                         meta.append((s, text, k))
                         calls.extend(calls_for(s, text, k))
             ctx.count("grammars")
+            sweeps = add_sweeps(calls, meta)
             for side, worker in (("raw", modes.raw), ("opt", modes.opt)):
                 res = worker.call("pestverif.modes:eval_grammar", {"text": case["text"], "calls": calls, "gen": True})
                 if res["load"][0] != "ok":
@@ -190,6 +225,7 @@ def run_shard(ctx: Ctx, spec):
                         if cls is not None:
                             ctx.violation(f"{mode}:{cls}", fullcase.make_case(case, s, text, k, mode),
                                           f"start_pos={k}: {str(a)[:250]}; suffix at 0: {str(b)[:250]}; other prefix: {str(c)[:150]}")
+                    check_sweeps(ctx, case, mode, outs, meta, sweeps)
             if len(ctx.samples) < 3:
                 ctx.sample({"grammar": case["text"], "texts": sorted({m[1] for m in meta})[:5], "k": "all 0..len"})
 
